@@ -84,6 +84,10 @@ func c08Jobs(tier string) []*Job {
 		p0 := primaryAt(5, 0, 4)
 		ms := timedScen(fmt.Sprintf("C08-N4-%s-backup-fetches-a-transaction", amevName(a)), 4, "C08", withAMEV(a), withHeights(2), withK(2), withHorizon(2*3+2), withMissing((p0+1)%4, 101))
 		jobs = append(jobs, job(ms, per))
+		// ... slowly (the others run ahead meanwhile), and its verifier looks at the transactions attached to the block
+		sl := timedScen(fmt.Sprintf("C08-N4-%s-backup-fetches-a-transaction-slowly", amevName(a)), 4, "C08", withAMEV(a), withHeights(2), withK(2), withHorizon(2*3+2), withMissing((p0+1)%4, 101))
+		sl.TxLast, sl.StrictVerify = true, true
+		jobs = append(jobs, job(sl, per))
 	}
 	// unbounded: every interleaving at two focus nodes, N=4, one height (others process eagerly in default order)
 	for _, f := range [][]int{{0, 1}, {1, 2}, {2, 3}, {0, 3}} {
